@@ -121,7 +121,7 @@ class ConnGen:
         if ty == 'fd':
             return {'k': 'fd', 'v': r.randint(3, 40)}
         if ty == 'array':
-            return {'k': 'array', 'n': r.choice([0, 4, 16, 24])}
+            return {'k': 'array', 'n': r.choice([0, 4, 16, 24, 3, 13])}
         return None
 
     def msg_on(self, target, msg, t, allow_create=True):
